@@ -12,7 +12,7 @@
    validator shares: check_C03 on implementation traces (partial). *)
 From Coq Require Import ZArith List Bool.
 From Alliance Require Import Num KMap Types Monad Model Step Spec Hoare WitnessLib.
-From Alliance.Witness Require Import F_C03_valshares F_C03_negative_total.
+From Alliance.Witness Require Import F_C03_valshares F_C03_negative_total F_C03_negative_share_total.
 From Alliance.Proofs Require Import SortedInv WellKeyed ShareLedger.
 From Alliance.Proofs Require TokensNonneg ResetAtZero TotalFloor.
 Import ListNotations.
@@ -46,6 +46,15 @@ Example C03_fixed_negative_staked_total :
   witness_fails 3 3 ops_F_C03_negative_total = false /\ witness_fails 3 2 ops_F_C03_negative_total = true.
 Proof. vm_compute. repeat split; reflexivity. Qed.
 Print Assumptions C03_fixed_negative_staked_total.
+
+(* F-C03-1 goes further than a mismatch: the asset's total of validator shares itself becomes negative (clause 33),
+   also after 714c18a.  History found by the thorough tier of C05 on the repaired tree and shrunk on the real
+   application (20 actions: two validators slashed by different fractions, a weight change, a drain); the staked
+   total stays non-negative on it (clause 32), as the theorem below says it must. *)
+Example C03_refuted_negative_share_total :
+  witness_fails 3 33 ops_F_C03_negative_share_total = true /\ witness_fails 3 32 ops_F_C03_negative_share_total = false.
+Proof. vm_compute. split; reflexivity. Qed.
+Print Assumptions C03_refuted_negative_share_total.
 
 (* ... and for EVERY history (not only that one): no stored asset ever has a negative staked total.  Assumed:
    an asset put in by genesis is valid and carries a non-negative total.  The only subtractions are the take
